@@ -159,7 +159,9 @@ def main():
             if st == "raised":
                 res.failure("overlap:raised-other-error", "sub-arcs [%s,%s] / [%s,%s] of a degree-%d parent: %s" % (a, b, c, d, kw["degree"], pts), rc)
                 continue
-            cols = [(Fr(float(pts[0, k])), Fr(float(pts[1, k]))) for k in range(pts.shape[1])]
+            cols, nonfinite = C.finite_cols(pts)
+            if nonfinite:
+                res.failure("param-not-finite", "NaN / infinite parameter in %s" % pts.tolist(), rc)
             if rel == "overlap":
                 want = [((p - a) / (b - a), (p - c) / (d - c)) for p in (lo, hi)]
                 ok = flag and len(cols) == 2 and all(abs(g[0] - w[0]) <= TOL and abs(g[1] - w[1]) <= TOL for g, w in zip(cols, want))
@@ -196,7 +198,9 @@ def main():
             if st != "ok":
                 res.failure("collinear:raised", "collinear segments %s-%s / %s-%s: %s %s" % (p, q, r, s, st, pts), rc)
                 continue
-            cols = [(Fr(float(pts[0, k])), Fr(float(pts[1, k]))) for k in range(pts.shape[1])]
+            cols, nonfinite = C.finite_cols(pts)
+            if nonfinite:
+                res.failure("param-not-finite", "NaN / infinite parameter in %s" % pts.tolist(), rc)
 
             def tpar(sv):
                 return (sv - sr) / (ss - sr)
